@@ -5,8 +5,11 @@
 #include <cstring>
 #include <fstream>
 #include <iostream>
+#include <algorithm>
+#include <memory>
 #include <sstream>
 #include <string>
+#include <vector>
 
 #include "run.hpp"
 #include "shrink.hpp"
@@ -86,6 +89,15 @@ static std::string result_line(uint64_t seed, Sim& s, const std::vector<Violatio
 }
 
 static int run_one(const Plan& plan, const Args& a, bool print_plan) {
+    if (plan.knobs.focus == "C19diff") {
+        auto t0 = sim::real_ns();
+        Sim* s0 = nullptr;
+        auto vs = run_diff(plan, &s0, nullptr);
+        double ms = (sim::real_ns() - t0) / 1e6;
+        puts(result_line(plan.seed, *s0, vs, ms).c_str());
+        for (auto& v : vs) printf("VIOLATION-DETAIL %s %s: %s\n", v.prop.c_str(), v.oracle.c_str(), v.detail.c_str());
+        return vs.empty() ? 0 : 1;
+    }
     auto t0 = sim::real_ns();
     Sim s(plan, a.trace);
     s.execute();
@@ -128,12 +140,12 @@ int main(int argc, char** argv) {
     }
     if (a.mode == "selftest") { puts("selftest ok"); return 0; }
     if (a.mode == "gen") {
-        Plan p = generate(a.seed, a.focus);
+        Plan p = a.focus == "C19diff" ? generate_diff(a.seed) : generate(a.seed, a.focus);
         puts(plan_to_json(p).c_str());
         return 0;
     }
     if (a.mode == "run") {
-        Plan p = generate(a.seed, a.focus);
+        Plan p = a.focus == "C19diff" ? generate_diff(a.seed) : generate(a.seed, a.focus);
         return run_one(p, a, a.verbose);
     }
     if (a.mode == "replay") {
@@ -151,6 +163,17 @@ int main(int argc, char** argv) {
             uint64_t seed = a.from + i * a.stride;
             printf("START %llu\n", (unsigned long long)seed);
             fflush(stdout);
+            if (a.focus == "C19diff") {
+                Plan p = generate_diff(seed);
+                auto t0 = sim::real_ns();
+                Sim* s0 = nullptr;
+                auto vs = run_diff(p, &s0, nullptr);
+                double ms = (sim::real_ns() - t0) / 1e6;
+                puts(result_line(seed, *s0, vs, ms).c_str());
+                fflush(stdout);
+                if (!vs.empty()) rc = 1;
+                continue;
+            }
             Plan p = generate(seed, a.focus);
             auto t0 = sim::real_ns();
             Sim s(p, false);
@@ -169,7 +192,7 @@ int main(int argc, char** argv) {
         if (!a.file.empty()) {
             std::ifstream f(a.file); std::stringstream ss; ss << f.rdbuf(); std::string err;
             if (!plan_from_replay(ss.str(), p, &err)) { fprintf(stderr, "cannot parse: %s\n", err.c_str()); return 2; }
-        } else p = generate(a.seed, a.focus);
+        } else p = a.focus == "C19diff" ? generate_diff(a.seed) : generate(a.seed, a.focus);
         return shrink_main(p, a.sig, a.out, a.budget);
     }
     fprintf(stderr, "usage: simc run|worker|replay|shrink|gen|selftest ...\n");
